@@ -78,7 +78,13 @@ def build(case, shared=None):
     arch = create_default_arch(getattr(Accelerator, acc["enum"]))
     D = {"int8": DataType.int8, "uint8": DataType.uint8, "int16": DataType.int16}[case["ifm_dtype"]]
     optype = {"conv": Op.Conv2DBias, "depthwise": Op.DepthwiseConv2DBias, "fc": Op.FullyConnected, "tconv": Op.Conv2DBackpropInputSwitchedBias}[case["op"]]
-    op = Operation(optype, "op%s" % case.get("name", ""))
+    if case.get("conv_as_fc"):
+        # a 1x1 CONV_2D on a 1x1 plane, as convert_conv_to_fc leaves it: the type becomes FullyConnected, the original type (and with it the reference kernel
+        # whose scale derivation applies) stays CONV_2D
+        op = Operation(Op.Conv2DBias, "op%s_fc" % case.get("name", ""))
+        op.type = Op.FullyConnected
+    else:
+        op = Operation(optype, "op%s" % case.get("name", ""))
 
     def quant(s, z):
         q = QuantizationParameters()
@@ -155,7 +161,7 @@ def expected_scales(case, wscale):
     out = []
     for s in ws:
         s = np.float32(s)
-        if case["ifm_dtype"] == "uint8" or case["op"] == "fc":
+        if case["ifm_dtype"] == "uint8" or (case["op"] == "fc" and not case.get("conv_as_fc")):
             d = float(np.float32(ifs * s)) / float(ofs)
         else:
             d = float(ifs) * float(s) / float(ofs)
@@ -302,8 +308,9 @@ def request_strategy(name=""):
         # depth slices: 0 .. oc with intermediate multiples of 16
         cuts = sorted(set(draw(st.lists(st.integers(1, max(1, (oc - 1) // 16)), max_size=3)))) if oc > 16 else []
         offs = [0] + [16 * c for c in cuts if 16 * c < oc] + [oc]
-        return dict(kind="single", name=name, op=op, ifm_dtype=ifm_dtype, oc=oc, ic=ic, kh=kh, kw=kw, seed=draw(st.integers(0, 1 << 30)),
-                    wdist=draw(st.sampled_from(["wide", "sparse", "index"])), per_channel=(ifm_dtype != "uint8" and op != "fc" and draw(st.booleans())),
+        conv_as_fc = op == "fc" and draw(st.integers(0, 2)) == 0
+        return dict(kind="single", name=name, op=op, conv_as_fc=conv_as_fc, ifm_dtype=ifm_dtype, oc=oc, ic=ic, kh=kh, kw=kw, seed=draw(st.integers(0, 1 << 30)),
+                    wdist=draw(st.sampled_from(["wide", "sparse", "index"])), per_channel=(ifm_dtype != "uint8" and (op != "fc" or conv_as_fc) and draw(st.booleans())),
                     wzp=draw(st.integers(0, 255)), bias64=(ifm_dtype == "int16" and draw(st.booleans())),
                     ifm_scale=draw(st.sampled_from([0.05, 0.0078125, 0.1234, 1.0])), ofm_scale=draw(st.sampled_from([0.05, 0.11, 0.5, 2.0])),
                     dilation=[1, 1] if op in ("fc", "tconv") else [draw(st.sampled_from([1, 1, 2])), draw(st.sampled_from([1, 1, 2]))],
